@@ -10,6 +10,7 @@ import os, sys, json, time, hashlib, re, traceback, collections
 
 VERIF = os.path.dirname(os.path.dirname(os.path.abspath(__file__)))
 KLEPTO_SRC = os.environ.get('KLEPTO_SRC', '/repo')
+OUT = os.environ.get('VERIF_OUT', VERIF)   # evidence/ and replays/ go here (mutant runs redirect it)
 
 
 def env_seed():
@@ -147,7 +148,7 @@ class Run(object):
 
     # -- output ------------------------------------------------------------
     def write_replay(self, case, discrs, tag='v'):
-        d = os.path.join(VERIF, 'replays')
+        d = os.path.join(OUT, 'replays')
         os.makedirs(d, exist_ok=True)
         name = '%s_%s_%s.json' % (self.prop, tag, case_hash(case)[:10])
         path = os.path.join(d, name)
@@ -185,7 +186,7 @@ class Run(object):
         return ev
 
     def write_evidence(self):
-        d = os.path.join(VERIF, 'evidence')
+        d = os.path.join(OUT, 'evidence')
         os.makedirs(d, exist_ok=True)
         path = os.path.join(d, '%s.json' % self.prop)
         tmp = path + '.tmp%d' % os.getpid()
